@@ -233,6 +233,11 @@ func classify(err error) string {
 	return "err:other:" + strings.ReplaceAll(m, " ", "_")
 }
 
+// allNone: no connection of a sessauth answer carries a token
+func allNone(a string) bool {
+	return strings.Count(a, "tok=") == strings.Count(a, "tok=none")
+}
+
 func parseList(s string) []string {
 	if s == "none" {
 		return nil
@@ -815,6 +820,127 @@ func genTLSArgs(r *vh.Rng) string {
 		kinds[r.Intn(len(kinds))], kinds[r.Intn(len(kinds))], strings.Join(dials, " "))
 }
 
+// ---------- several hosts, ONE session: per-host authenticators, each node advertising its own class, connections
+// in every order (pool connections, control-connection dials, hosts re-dialled)
+
+// genSess: `static=<auth> prov=<provider> n<h>=<class|rdy>… <p|c><h>…` and the kind of configuration.
+// allowBoth: also configurations with Authenticator AND AuthProvider (NewSession refuses them; Conn.init does not).
+func genSess(r *vh.Rng, allowBoth bool) (string, string) {
+	k := 2 + r.Intn(3) // hosts 1..k
+	// the class each host's OWN authenticator approves (its allow-list), and its credentials
+	own := make([]string, k+1)
+	for h := 1; h <= k; h++ {
+		switch r.Intn(4) {
+		case 0: // a built-in default class; the allow-list may then be empty (= the default list)
+			own[h] = defaults[r.Intn(len(defaults))]
+		case 1:
+			own[h] = genClass(r)
+		default:
+			own[h] = fmt.Sprintf("org.example.auth.Authenticator%c", 'A'+h-1)
+		}
+	}
+	isDefault := func(c string) bool {
+		for _, d := range defaults {
+			if d == c {
+				return true
+			}
+		}
+		return false
+	}
+	pwFor := func(h int) string {
+		user, pass := []byte(fmt.Sprintf("user%d", h)), []byte(fmt.Sprintf("pw-%d-%x", h, r.Intn(256)))
+		if r.Intn(5) == 0 {
+			user, pass = genCred(r), genCred(r)
+		}
+		var allowed string
+		switch x := r.Intn(6); {
+		case x == 0 && isDefault(own[h]):
+			allowed = "none"
+		case x == 1: // its own class and another host's
+			allowed = vh.Hex([]byte(own[h])) + "," + vh.Hex([]byte(own[1+r.Intn(k)]))
+		case x == 2:
+			allowed = vh.Hex([]byte("com.example.Custom")) + "," + vh.Hex([]byte(own[h]))
+		default:
+			allowed = vh.Hex([]byte(own[h]))
+		}
+		return "pw:" + vh.Hex(user) + ":" + vh.Hex(pass) + ":" + allowed
+	}
+	authFor := func(h int) string {
+		if r.Intn(6) == 0 {
+			return genCustom(r)
+		}
+		return pwFor(h)
+	}
+	static, prov, kind := "none", "-", ""
+	mkProv := func() string {
+		var es []string
+		for h := 1; h <= k; h++ {
+			switch x := r.Intn(12); {
+			case x == 0:
+				es = append(es, fmt.Sprintf("%d=nil", h))
+			case x == 1:
+				es = append(es, fmt.Sprintf("%d=err", h))
+			case x == 2:
+				es = append(es, fmt.Sprintf("%d=%s+err", h, authFor(h)))
+			case x == 3: // no entry: the default applies
+			default:
+				es = append(es, fmt.Sprintf("%d=%s", h, authFor(h)))
+			}
+		}
+		if r.Intn(3) == 0 || len(es) == 0 {
+			es = append(es, "*="+[]string{"nil", "err", authFor(1 + r.Intn(k))}[r.Intn(3)])
+		}
+		return strings.Join(es, "/")
+	}
+	switch x := r.Intn(12); {
+	case x == 0:
+		kind = "neither"
+	case x <= 2:
+		kind, static = "static", authFor(1+r.Intn(k))
+	case x == 3 && allowBoth:
+		kind, static, prov = "both", authFor(1+r.Intn(k)), mkProv()
+	case x == 4: // a provider that hands out the SAME authenticator for every host
+		kind, prov = "provider-constant", "*="+authFor(1+r.Intn(k))
+	default:
+		kind, prov = "provider-per-host", mkProv()
+	}
+	var ws []string
+	for h := 1; h <= k; h++ {
+		var cls string
+		switch r.Intn(8) {
+		case 0:
+			ws = append(ws, fmt.Sprintf("n%d=rdy", h))
+			continue
+		case 1, 2: // a class that (only) ANOTHER host's authenticator approves
+			cls = own[1+(h+r.Intn(k-1))%k]
+		case 3: // a class on nobody's list
+			cls = []string{"com.evil.auth.Harvester", "org.apache.cassandra.auth.AllowAllAuthenticator", ""}[r.Intn(3)]
+		case 4:
+			cls = defaults[r.Intn(len(defaults))]
+		default:
+			cls = own[h]
+		}
+		ws = append(ws, fmt.Sprintf("n%d=%s", h, vh.Hex([]byte(cls))))
+	}
+	n := 2 + r.Intn(5)
+	first := 1 + r.Intn(k)
+	for i := 0; i < n; i++ {
+		h := 1 + r.Intn(k)
+		switch i {
+		case 0:
+			h = first
+		case 1: // another host right after the first
+			h = 1 + (first+r.Intn(k-1))%k
+		}
+		via := "p"
+		if r.Intn(4) == 0 {
+			via = "c"
+		}
+		ws = append(ws, fmt.Sprintf("%s%d", via, h))
+	}
+	return fmt.Sprintf("static=%s prov=%s %s", static, prov, strings.Join(ws, " ")), kind
+}
+
 // ---------- cases
 
 type pending struct {
@@ -967,6 +1093,22 @@ func main() {
 		add(strings.TrimSpace("nocred "+cfg+" "+strings.Join(sc, " ")), func(a string) string { return "oracle/nocred/" + pk + "/" + first(a) })
 		// per-host password credentials
 		add("disclose2 "+genPwConn(r, cls)+" "+vh.Hex([]byte(cls)), tokOrNone("oracle/disclose2/"))
+	}
+	// several hosts through ONE session: what every node receives is decided by ITS host's own authenticator
+	for i := 0; i < 150*hm; i++ {
+		args, kind := genSess(r, false)
+		add("sessauth "+args, func(a string) string {
+			tok, no := strings.Contains(a, "tok=") && !allNone(a), strings.Contains(a, "tok=none")
+			switch {
+			case strings.HasPrefix(a, "crash:") || strings.HasPrefix(a, "hang:"):
+				return "oracle/sessauth/" + kind + "/" + first(a)
+			case tok && no:
+				return "oracle/sessauth/" + kind + "/some-hosts-get-tokens"
+			case tok:
+				return "oracle/sessauth/" + kind + "/all-get-tokens"
+			}
+			return "oracle/sessauth/" + kind + "/no-tokens"
+		})
 	}
 	// NewSession: Authenticator and AuthProvider are mutually exclusive
 	for i := 0; i < 12*hm; i++ {
@@ -1170,6 +1312,16 @@ func main() {
 			continue
 		}
 		add(strings.TrimSpace("hsx "+genConn(r, cls)+" "+strings.Join(genScript(r, cls), " ")), outcomeClass("hsx/"))
+	}
+	// the full traces of every connection of a session with several hosts (incl. Authenticator AND AuthProvider)
+	for i := 0; i < 150*hm; i++ {
+		args, kind := genSess(r, true)
+		add("sessx "+args, func(a string) string {
+			if strings.HasPrefix(a, "crash:") || strings.HasPrefix(a, "hang:") {
+				return "sessx/" + kind + "/" + first(a)
+			}
+			return "sessx/" + kind
+		})
 	}
 	for i := 0; i < 100*hm; i++ {
 		add("tlsx "+genTLSArgs(r), func(a string) string {
